@@ -497,6 +497,5 @@ def bases(tier):
     out = [("compact", compact_schema())]
     if tier == "thorough":
         out.append(("rules", rulesgen.denormalize(rulesgen.normalize(rulesgen.rules_schema()))))
-        out.append(("vle", catalogue.view_schemas()[0]))
-        out += [(S["package"], S) for S in catalogue.header_schemas() if S["package"] in ("h_refs", "h_types64_be")]
+        out += [(S["package"], S) for S in catalogue.header_schemas() if S["package"] in ("h_refs",)]
     return [(n, copy.deepcopy(S)) for n, S in out]
